@@ -99,6 +99,51 @@ pub fn snapshot(root: &Path) -> String {
     enc_list(",", &xs)
 }
 
+/// number of threads of this process (the harness itself is single-threaded: anything above the
+/// baseline is a background rotation thread of the fixed-window roller)
+pub fn n_threads() -> usize {
+    std::fs::read_dir("/proc/self/task").map(|d| d.count()).unwrap_or(1)
+}
+
+/// wait until every background rotation thread has finished; false on timeout
+pub fn wait_quiescent(baseline: usize) -> bool {
+    let t0 = std::time::Instant::now();
+    while n_threads() > baseline {
+        if t0.elapsed() > std::time::Duration::from_secs(120) {
+            return false;
+        }
+        std::thread::sleep(std::time::Duration::from_micros(200));
+    }
+    true
+}
+
+/// the temp names of background rotation (`<file with its extension replaced by unix seconds>`,
+/// bumped while taken) are replaced by `<stem>.@<rank>` (rank in numeric order = creation order)
+pub fn snapshot_canon(root: &Path, file_rel: &str) -> String {
+    let mut v = Vec::new();
+    walk(root, root, &mut v);
+    let stem = Path::new(file_rel).with_extension("");
+    let stem = stem.to_string_lossy().to_string();
+    let prefix = format!("{}.", stem);
+    let mut temps: Vec<(u64, usize)> = vec![];
+    for (i, (p, _)) in v.iter().enumerate() {
+        if let Some(rest) = p.strip_prefix(&prefix) {
+            if rest.len() >= 9 && rest.bytes().all(|b| b.is_ascii_digit()) {
+                if let Ok(n) = rest.parse::<u64>() {
+                    temps.push((n, i));
+                }
+            }
+        }
+    }
+    temps.sort();
+    for (rank, (_, i)) in temps.iter().enumerate() {
+        v[*i].0 = format!("{}.@{}", stem, rank);
+    }
+    v.sort();
+    let xs: Vec<String> = v.iter().map(|(p, b)| format!("{}:{}", enc_str(p), enc_bytes(b))).collect();
+    enc_list(",", &xs)
+}
+
 pub fn write_file(root: &Path, rel: &str, data: &[u8]) -> std::io::Result<()> {
     if rel.is_empty() || rel.ends_with('/') || rel.starts_with('/') {
         return Err(std::io::Error::new(std::io::ErrorKind::InvalidInput, "not a relative file path"));
@@ -124,9 +169,19 @@ fn dec_pairs(s: &str) -> Option<Vec<(String, String)>> {
 }
 
 pub fn exec(fields: &[&str]) -> String {
-    if fields.len() != 8 {
+    // background-rotation cases: two more fields, `@bg` and the schedule (`w` = wait for quiescence
+    // and snapshot after this roll, `n` = roll on while the rotation thread is still running)
+    let bg: Option<Vec<bool>> = if fields.len() == 10 && fields[8] == "@bg" {
+        let sch = dec_list(',', fields[9]);
+        if sch.iter().any(|x| x != "w" && x != "n") {
+            return "bad-case".to_owned();
+        }
+        Some(sch.iter().map(|x| x == "w").collect())
+    } else if fields.len() == 8 {
+        None
+    } else {
         return "bad-case".to_owned();
-    }
+    };
     let kind = fields[0];
     let (pattern, base, count, file) = match (
         dec_str(fields[1]),
@@ -204,6 +259,46 @@ pub fn exec(fields: &[&str]) -> String {
         Ok(roller) => {
             let mut out = vec![];
             let path = root.join(&file);
+            if let Some(sched) = &bg {
+                if sched.len() != rolls.len() {
+                    let _ = std::fs::remove_dir_all(&root);
+                    return "bad-case".to_owned();
+                }
+                // slow the rotation thread down a little so that a roll that does not wait really
+                // overlaps with the previous rotation
+                log4rs::verif_hooks::set_rotate_point(Some(std::sync::Arc::new(|_i: u32| {
+                    std::thread::sleep(std::time::Duration::from_micros(700));
+                    Ok(())
+                })));
+                let baseline = n_threads();
+                let o = quiet_stdout(|| {
+                    let mut out = vec![];
+                    for (r, wait) in rolls.iter().zip(sched.iter()) {
+                        if let Some(b) = r {
+                            if write_file(&root, &file, b).is_err() {
+                                out.push("harness-cannot-write".to_owned());
+                                continue;
+                            }
+                        }
+                        let res = guarded(std::panic::AssertUnwindSafe(|| roller.roll(&path)));
+                        let kind = match res {
+                            Ok(Ok(())) => "ok",
+                            Ok(Err(_)) => "err",
+                            Err(_) => "PANIC",
+                        };
+                        if *wait {
+                            let q = wait_quiescent(baseline);
+                            out.push(format!("{}|{}", if q { kind } else { "TIMEOUT" }, snapshot_canon(&root, &file)));
+                        } else {
+                            out.push(format!("{}|-", kind));
+                        }
+                    }
+                    wait_quiescent(baseline);
+                    out
+                });
+                log4rs::verif_hooks::set_rotate_point(None);
+                out = o;
+            } else {
             for r in &rolls {
                 if let Some(b) = r {
                     if write_file(&root, &file, b).is_err() {
@@ -218,6 +313,7 @@ pub fn exec(fields: &[&str]) -> String {
                     Err(_) => "PANIC",
                 };
                 out.push(format!("{}|{}", kind, snapshot(&root)));
+            }
             }
             enc_list("/", &out)
         }
@@ -333,6 +429,34 @@ fn emit_case(
     ));
 }
 
+/// the same case for the background-rotation build: `@bg` and a wait/no-wait schedule per roll
+fn emit_case_bg(
+    emit: &mut dyn FnMut(String),
+    rng: &mut Rng,
+    kind: &str,
+    sh: &Shape,
+    base: u64,
+    count: u64,
+    init: &[(String, Vec<u8>)],
+    rolls: &[Option<Vec<u8>>],
+) {
+    let n = rolls.len();
+    let style = rng.below(3);
+    let sched: Vec<String> = (0..n)
+        .map(|i| {
+            let wait = i + 1 == n || match style {
+                0 => true,           // every roll waits: quiescence after each
+                1 => false,          // back-to-back rolls, one snapshot at the end
+                _ => rng.chance(1, 2),
+            };
+            (if wait { "w" } else { "n" }).to_owned()
+        })
+        .collect();
+    let mut line = String::new();
+    emit_case(&mut |l| line = l, kind, sh, base, count, init, rolls);
+    emit(format!("{}\t@bg\t{}", line, enc_list(",", &sched)));
+}
+
 fn distinct_rolls(rng: &mut Rng, n: usize, thorough: bool, missing_tail: bool) -> Vec<Option<Vec<u8>>> {
     let mut seen_empty = false;
     let mut out: Vec<Option<Vec<u8>>> = vec![];
@@ -375,12 +499,24 @@ pub fn gen(rng: &mut Rng, n: usize, thorough: bool, emit: &mut dyn FnMut(String)
     if thorough {
         shapes.extend(SHAPES_THOROUGH.iter());
     }
-    for _ in 0..n {
+    // background rotation (second harness build, field `@bg`): a deterministic block and a share
+    // of the random histories
+    for &b in &[0u64, 3] {
+        for c in 0..=4u64 {
+            for sh in [&SHAPES[0], &SHAPES[2], &SHAPES[9]] {
+                let rolls: Vec<Option<Vec<u8>>> = (0..c + 3).map(|k| Some(format!("bg{}\n", k).into_bytes())).collect();
+                emit_case_bg(emit, rng, "fw", sh, b, c, &[], &rolls);
+            }
+        }
+    }
+    let n_bg = if thorough { n / 32 } else { n / 6 };
+    for it in 0..n + n_bg {
+        let is_bg = it >= n;
         let sh: &Shape = *rng.pick(&shapes);
-        let kind = if rng.chance(1, 12) { "del" } else { "fw" };
+        let kind = if !is_bg && rng.chance(1, 12) { "del" } else { "fw" };
         let b = *rng.pick(bases);
-        let c = rng.range(0, 5);
-        let max_rolls = if thorough || rng.chance(1, 4) { 12 } else { 7 };
+        let c = if is_bg { rng.range(0, 4) } else { rng.range(0, 5) };
+        let max_rolls = if is_bg { 8 } else if thorough || rng.chance(1, 4) { 12 } else { 7 };
         let n_rolls = rng.range(0, max_rolls) as usize;
         let missing_tail = rng.chance(1, 10);
         let rolls = distinct_rolls(rng, n_rolls, thorough, missing_tail);
@@ -460,6 +596,16 @@ pub fn gen(rng: &mut Rng, n: usize, thorough: bool, emit: &mut dyn FnMut(String)
         if clash(&file_expanded, &all) || window.iter().any(|w| *w == file_expanded || clash(w, &all)) {
             continue;
         }
-        emit_case(emit, kind, sh, b, c, &init, &rolls);
+        if is_bg {
+            // a rotation thread whose compress step fails does `println!`, which blocks for ever
+            // while the harness main loop holds the stdout lock: no missing file with gz/zst here
+            let mut rolls = rolls;
+            if (sh.pattern.ends_with(".gz") || sh.pattern.ends_with(".zst")) && rolls.last().map_or(false, |r| r.is_none()) {
+                rolls.pop();
+            }
+            emit_case_bg(emit, rng, kind, sh, b, c, &init, &rolls);
+        } else {
+            emit_case(emit, kind, sh, b, c, &init, &rolls);
+        }
     }
 }
